@@ -1155,7 +1155,8 @@ def _sweep_cases(thorough, fit_name):
     mixture / random problem (whole numbers need non-negative RDMs); for fit_optimize only problems whose unconstrained
     maximiser is non-negative and for fit_interpolate only chains whose best mixture lies inside a segment are used (the other
     classes are known findings F3 / F6 of the plain domains and would only repeat them under another name).  The quick list is
-    a sub-list of the thorough one (one method per problem instead of four; two for the iterative fitters)."""
+    a sub-list of the thorough one (one method per problem instead of four; for the iterative fitters two, and every other
+    problem in the quick run)."""
     slow = fit_name.startswith('fit_optimize')
     out = []
     count = [0]
@@ -1163,6 +1164,8 @@ def _sweep_cases(thorough, fit_name):
     def add(ic, **kw):
         i = count[0]
         count[0] += 1
+        if slow and not thorough and i % 2:
+            return          # quick run: every other problem for the iterative fitters
         if 'method' in kw:
             methods = (kw.pop('method'),)
         elif not thorough:
@@ -1252,7 +1255,7 @@ def _sequence_cases(thorough, fit_name):
     for i, v in enumerate(variants):
         if (slow and v.get('sigma')) or (fit_name == 'fit_interpolate' and v.get('k') == 1):
             continue
-        if slow and not thorough and i not in (1, 2, 4):
+        if slow and not thorough and i not in (2, 4):
             continue
         for j, method in enumerate(METHODS):
             if v.get('sigma') and not method.endswith('_cov'):
@@ -1263,7 +1266,7 @@ def _sequence_cases(thorough, fit_name):
                 continue
             for seed in range(2 if thorough and not slow else 1):
                 case = dict(seed=600 + 50 * seed + i, fitter=fit_name, k=(3, 2)[i % 2], n_all=6, pidx=None, desc='index', kind='posmix',
-                            method=method, n_train=(3, 4, 1)[i % 3] if i % 3 != 2 or v else 3, sigma='none',
+                            method=method, n_train=(3, 4, 2)[i % 3], sigma='none',
                             via=('direct', 'Fitter')[(i + j) % 2] if _FITTER_MODEL[fit_name] == 'ModelWeighted' else 'direct')
                 case.update(v)
                 for _ in range(6):
@@ -1316,7 +1319,7 @@ def tier_c(run, thorough):
                      '/ Model.fit; competitors: 40 random directions, 45 local perturbations (scales 1e-1,1e-2,1e-3), 5-level '
                      'grid, each basis RDM alone, independent (NN)LS optimum; tolerance 1e-6 on the score'
                      % ((len(wc), 4, '5/6/8', '' if fit_name.startswith('fit_optimize') else ', diagonal', n_sig) if thorough
-                        else (len(wc), 3, '5/6', '', n_sig)), function=fit_name)
+                        else (len(wc), 3, '5/6', '', n_sig)) + SWEEP_NOTE, function=fit_name)
         for case in wc:
             ic = _sigma_class(case)
             if fit_name == 'fit_optimize':
@@ -1336,12 +1339,13 @@ def tier_c(run, thorough):
                     case = dict(seed=9000 + seed, k=3, n_all=6, pidx=[0, 1, 1, 3, 4, 4], desc='cond', kind='posmix', method=method,
                                 n_train=3, sigma='none', via='model.fit')
                     bd.check(orc, case, _sigma_class(case) + ',' + _optimum_sign_class(case), function='ModelWeighted.fit')
+        _run_sweeps(bd, orc, fit_name, thorough)
         bd.done()
         bds.append(bd)
     # ---- selection -----------------------------------------------------------------------------
     bd = Bounded(run, 'C08/select', 'C08/fit_select/oracle/best-single-candidate',
                  'seeded problems: 2..5 candidate RDMs on 5/6/8 conditions, the pattern selections of the weighted domain, '
-                 '1/3/4 training RDMs, 4 methods, sigma_k none / given; plus seeded problems with CLOSE candidates (perturbations of one pattern) and 3/4 heterogeneous training RDMs, sigma_k none / full / diagonal; fit_select and ModelSelect.fit', function='fit_select')
+                 '1/3/4 training RDMs, 4 methods, sigma_k none / given; plus seeded problems with CLOSE candidates (perturbations of one pattern) and 3/4 heterogeneous training RDMs, sigma_k none / full / diagonal; fit_select and ModelSelect.fit' + SWEEP_NOTE, function='fit_select')
     for seed in range(3 if thorough else 1):
         for method in METHODS:
             for n_all in (5, 6, 8):
@@ -1358,6 +1362,7 @@ def tier_c(run, thorough):
                     method=method, n_train=(3, 4)[seed % 2], sigma=('full', 'diag')[(seed // 4) % 2] if method.endswith('_cov') else 'none',
                     via=('direct', 'model.fit')[seed % 2])
         bd.check(orc_select, case, _sigma_class(case) + ',close-candidates', function='fit_select')
+    _run_sweeps(bd, orc_select, 'fit_select', thorough)
     bd.done()
     bds.append(bd)
     # ---- interpolation -------------------------------------------------------------------------
@@ -1365,7 +1370,8 @@ def tier_c(run, thorough):
                  'seeded chains of 2..5 RDMs on 5/6/8 conditions (random, signed mixtures, and chains whose best single RDM '
                  'is not an end point of the best segment: every (segment, decoy) position), pattern selections as above, '
                  '1/3 training RDMs, 4 methods, sigma_k none / given; competitors: 41-point grid on every segment, basis RDMs '
-                 'alone, local perturbations of the mixing weight; tolerance 1e-6', function='fit_interpolate')
+                 'alone, local perturbations of the mixing weight; tolerance 1e-6' + SWEEP_NOTE + ' (chains whose best mixture '
+                 'lies inside a segment)', function='fit_interpolate')
     for seed in range(3 if thorough else 1):
         for method in METHODS:
             for n_all in ((5, 6, 8) if thorough else (6, 8)):
@@ -1386,13 +1392,16 @@ def tier_c(run, thorough):
                                         decoy=decoy, method=method, n_train=3, sigma='none',
                                         via=('direct', 'model.fit')[(seg + decoy) % 2])
                             bd.check(orc_interpolate, case, _interp_optimum_kind(case), function='fit_interpolate')
+    _run_sweeps(bd, orc_interpolate, 'fit_interpolate', thorough)
     bd.done()
     bds.append(bd)
     # ---- restriction to the selected conditions ---------------------------------------------------
     bd = Bounded(run, 'C08/restriction', 'C08/fitters/oracle/only-selected-conditions',
                  'all six fitters x 4 methods x pattern selections (subsets, repeats, permuted, relabelled descriptor) on 5/6 '
                  'conditions, 2-3 basis RDMs, sigma_k none / given: sentinel overwrite of unselected conditions, explicit '
-                 'restricted model, rotation of the index list', function='fit_*')
+                 'restricted model, rotation of the index list; plus per fitter: a descriptor with repeated interleaved values '
+                 '(groups, int / str), str labels, pattern_idx as list / tuple, 3 selected conditions, basis x1e6 with training '
+                 'x1e-6', function='fit_*')
     for fit_name in _FITTER_MODEL:
         slow = fit_name.startswith('fit_optimize')
         for seed in range(2 if (thorough and not slow) else 1):
@@ -1412,13 +1421,45 @@ def tier_c(run, thorough):
                                     kind='posmix' if slow else ('random', 'mix')[si % 2], method=method,
                                     n_train=(1, 3)[si % 2], sigma=sigma)
                         bd.check(orc_restriction, case, fit_name + ',' + _sigma_class(case), function=fit_name)
+        for ic, case in _restriction_sweeps(thorough, fit_name):
+            bd.check(orc_restriction, case, fit_name + ',' + ic, function=fit_name)
+    bd.done()
+    bds.append(bd)
+    # ---- call sequences and permutations ----------------------------------------------------------
+    bd = Bounded(run, 'C08/sequence', 'C08/fitters/oracle/call-sequences-inputs-permutations',
+                 'all six fitters on seeded positive problems (6 conditions, 1-3 basis RDMs, 2-4 training RDMs, 4 methods; '
+                 'selections none / repeats / grouped str descriptor / model from vectors, float32 data, sigma_k full / diagonal): '
+                 'the same call twice, again after fits of other data and of another model of the same shape, earlier result as '
+                 'competitor for the later problem, arguments unchanged, held results unchanged, basis RDMs and training RDMs in '
+                 'the opposite order', function='fit_*')
+    for fit_name in _FITTER_MODEL:
+        for case in _sequence_cases(thorough, fit_name):
+            bd.check(orc_sequence, case, fit_name, function=fit_name)
+    bd.done()
+    bds.append(bd)
+    # ---- a new interpreter ------------------------------------------------------------------------
+    bd = Bounded(run, 'C08/cross-process', 'C08/fitters/oracle/same-result-in-a-new-interpreter',
+                 'all six fitters and the predictions of the dictionary-rebuilt fitted models on %d string-labelled grouped '
+                 'problem(s), each repeated in %d child interpreter(s) with another PYTHONHASHSEED; compared bit for bit'
+                 % ((2, 2) if thorough else (1, 1)), function='fit_*')
+    xcases = [dict(seed=77, k=3, n_all=7, desc='group', groups=_GROUPS[7], pidx=[0, 1, 1, 3], labels='str', pidx_as='list',
+                   kind='posmix', method='corr', n_train=3, sigma='none')]
+    if thorough:
+        xcases.append(dict(seed=78, k=2, n_all=6, desc='cond', pidx=[3, 0, 1, 1, 4], labels='str', kind='posmix',
+                           method='cosine_cov', n_train=2, sigma='none'))
+    for case in xcases:
+        bd.check(orc_cross_process, dict(case, hash_seeds=[31337, 1] if thorough else [31337]), 'string-descriptors',
+                 function='fit_*')
     bd.done()
     bds.append(bd)
     # ---- predictions ---------------------------------------------------------------------------
     bd = Bounded(run, 'C08/predict', 'C08/Model.predict/oracle/predict-agree-linear-descriptors-dict',
                  'ModelFixed / ModelSelect / ModelWeighted / ModelInterpolate built from an RDMs object, from vectors and from '
                  'matrices; 1..4 basis RDMs on 3..6 conditions with distinct sentinel entries; theta: default, non-negative, '
-                 'convex adjacent mixture, signed; to_dict/model_from_dict round trip', function='Model.predict')
+                 'convex adjacent mixture, signed; to_dict/model_from_dict round trip (also with the dictionary entries in the '
+                 'opposite order); parameters as array / list / tuple / integer array / numpy integer; repeated calls, held '
+                 'results, untouched arguments; sweeps: whole-number basis RDMs as int64/int32/int16/uint8/float32, units x1e-20 '
+                 '.. x1e+12, str labels', function='Model.predict')
     for seed in range(3 if thorough else 1):
         for ctor in ('rdms', 'vectors', 'matrices'):
             for n in ((3, 4, 6) if thorough else (4, 5)):
@@ -1438,6 +1479,27 @@ def tier_c(run, thorough):
         for n in (4, 5):
             bd.check(orc_predict, dict(seed=seed, cls='ModelFixed', ctor='rdms', k=2, n=n, theta='default'), 'fixed,multi-rdm',
                      function='ModelFixed.predict_rdm')
+    # dimension sweeps (the classes that are known findings of the plain domain -- interpolate,theta-default / theta-signed and
+    # fixed,multi-rdm -- are left out: they would only repeat F7-F9)
+    extras = ([('typed-data,' + d, dict(dtype=d)) for d in _DTYPES]
+              + [('units,x%g' % b, dict(bscale=b)) for b in (1e-20, 1e-12, 1e6, 1e12)] + [('str-labels', dict(labels='str'))])
+    i = 0
+    for seed in range(2 if thorough else 1):
+        for ctor in ('rdms', 'vectors', 'matrices'):
+            for dim, extra in extras:
+                n = (4, 5, 6)[i % 3] if thorough else (4, 5)[i % 2]
+                k = (2, 4, 3)[i % 3]
+                i += 1
+                if dim == 'str-labels' and ctor != 'rdms':
+                    continue
+                cs = [('fixed', 'ModelFixed.predict', dict(cls='ModelFixed', k=1, theta=('default', 'given')[i % 2])),
+                      ('select', 'ModelSelect.predict', dict(cls='ModelSelect', k=k, theta='given'))]
+                cs += [('weighted,theta-' + th, 'ModelWeighted.predict', dict(cls='ModelWeighted', k=k, theta=th))
+                       for th in ('default', 'nonneg', 'signed')]
+                cs += [('interpolate,theta-' + th, 'ModelInterpolate.predict_rdm', dict(cls='ModelInterpolate', k=k, theta=th))
+                       for th in ('nonneg', 'convex')]
+                for ic, fn, c in cs:
+                    bd.check(orc_predict, dict(seed=10 + seed, ctor=ctor, n=n, **c, **extra), ic + ',' + dim, function=fn)
     bd.done()
     bds.append(bd)
     # ---- forwarding ----------------------------------------------------------------------------
